@@ -121,6 +121,16 @@ func ruleCommitTally(c *Ctx) {
 		}
 		key := fk + " :: tally += power"
 		val := strings.TrimSuffix(w.expr(acc.y), ".VotingPower")
+		if !strings.HasSuffix(name, "Trusting") {
+			// the per-slot check may live in a helper that hands the validator back (`val, err :=
+			// vals.verifySlot(...)`): the tallied validator is then what the helper returns, in this
+			// function's terms, and the guards below are looked for behind the helper's success
+			if ld, isLd := acc.y.(*ssa.UnOp); isLd && ld.Op == token.MUL {
+				if fa, isFa := ld.X.(*ssa.FieldAddr); isFa {
+					val = w.resolveResult(fa.X)
+				}
+			}
+		}
 		V := q(val)
 		commit, chain := "", paramName(f, 1)
 		for _, p := range f.Params {
@@ -688,7 +698,11 @@ func init() {
 				idx := regexp.QuoteMeta(m[2])
 				g := guardRe("the slot's address is that validator's address", `^true\(bytes\.Equal\(`+regexp.QuoteMeta(m[1])+`\.Address, .*\.Signatures\[`+idx+`\]\.ValidatorAddress\)\)$`)
 				// the guard may sit in the function or in the helper that holds the call
+				// (a helper's parameters rendered as the arguments of this function's call, as m was)
+				saved := w.subst
+				w.subst = dc.sub
 				ok, why := c.ge().guarded(dc.call.Parent(), dc.call, g, 0)
+				w.subst = saved
 				if !ok && dc.call.Parent() != f {
 					ok, why = c.ge().guarded(f, dc.site, g, 0)
 				}
